@@ -244,6 +244,15 @@ class Check(BaseCheck):
             ln = np.linalg.norm(vn, axis=1)
             if np.max(np.abs(ln[ln > 0.5] - 1)) > 1e-9:
                 return core.Violation("vertex_normals", "vertex normals not unit", case)
+            crs = np.cross(v1 - v0, v[t[:, 2]] - v0)            # every corner of a triangle contributes the same cross product of its own edge vectors
+            acc = np.zeros_like(v)
+            for col in range(3):
+                np.add.at(acc, t[:, col], crs)
+            la = np.linalg.norm(acc, axis=1)
+            good = la > 1e-6 * max(np.abs(crs).max(), 1e-300)
+            if good.any() and np.max(np.abs(vn[good] - acc[good] / la[good][:, None])) > 1e-7 * kap:
+                return core.Violation("vertex_normals", "vertex normals differ from the normalised sum of the incident triangles' cross products (max dev %.3g; boundary vertices included)"
+                                      % np.max(np.abs(vn[good] - acc[good] / la[good][:, None])), case)
             d = 0.37
             def off():
                 m = TriaMesh(pv, pt); m.normal_offset_(d); return np.array(m.v)
